@@ -27,9 +27,33 @@ package cache
 //@        && len(ks) == len(k) && forall(j, 0, len(k), ks[j] == k[j]) && e.k == ks
 //@        && e.v != nil && fresh(e.v) && len(e.v) == len(v) && bytesEq(e.v, 0, v, 0, len(v))
 //@        && e.storedTime == st && e.expireTime == et
-//@ func (c *RedisCache) AsyncStore(k []byte, storedTime time.Time, expireTime time.Time, v []byte, setNX bool)
-//@   trusted
+// buildValue: the redis value is 16 bytes of time stamps followed by a private copy of the caller's bytes.
+//@ func (c *RedisCache) buildValue(storedTime time.Time, expireTime time.Time, v []byte) (b pool.Buffer)
+//@   props C07 C20 C01
 //@   modifies nothing
+//@   ensures [C07:value-bytes-kept] b != nil && fresh(b) && len(b) == 16 + len(v) && bytesEq(b, 16, v, 0, len(v))
+// AsyncStore: nothing is queued while redis is away or when the entry has (almost) expired; otherwise private
+// copies of key and value are either handed to the writer goroutine - exactly once, without blocking - or, when
+// its queue is full, released again; the caller's buffers are never queued themselves.
+//@ func (c *RedisCache) AsyncStore(k []byte, storedTime time.Time, expireTime time.Time, v []byte, setNX bool)
+//@   props C08 C20 C01
+//@   requires c != nil && redisOK(c)
+//@   ghost gKey pool.Buffer = nil
+//@   ghost gVal pool.Buffer = nil
+//@   ghost nSend int = 0
+//@   ghost nRel int = 0
+//@   ghost gTtl int64 = 0
+//@   aftercall CopyBuf?: gKey = ret0
+//@   aftercall buildValue?: gVal = ret0
+//@   aftercall Milliseconds?: gTtl = ret0
+//@   oncall send: nSend = nSend + 1
+//@   oncall ReleaseBuf?: nRel = nRel + 1
+//@   modifies nothing
+//@   ensures [C20:copies-handed-over-or-released] (nSend == 1 && nRel == 0) || (nSend == 0 && nRel == 2) || (nSend == 0 && nRel == 0 && gKey == nil)
+//@   callsite send: [C08,C20:private-copies-with-the-time-left] arg1.k == gKey && arg1.v == gVal && arg1.ttlMs == gTtl && gTtl > 10 && arg1.nx == setNX && nSend == 0 && nRel == 0
+//@   callsite buildValue?: [C08:stamps-and-value-of-this-entry] arg1 == storedTime && arg2 == expireTime && sameSlice(arg3, v, 0, len(v))
+//@   callsite CopyBuf?: [C07:key-of-this-entry] sameSlice(arg0, k, 0, len(k))
+//@   callsite Until?: [C08:time-left-of-this-entry] arg0 == expireTime
 
 // A recycled entry is exclusively owned by the caller (sync.Pool hands an object to one Get at a time).
 //@ func newCacheEntry() (e *cacheEntry)
@@ -81,10 +105,12 @@ package cache
 //@   modifies nothing
 //@   ensures (err == nil) == (c != nil)
 //@   ensures err == nil ==> fresh(c) && memOK(c)
+//@ spec func redisOK(c *RedisCache) bool = c.setDroppedTotal != nil
 //@ func NewRedisCache(u string, logger *zerolog.Logger) (c *RedisCache, err error)
 //@   trusted
 //@   modifies nothing
 //@   ensures (err == nil) == (c != nil)
+//@   ensures err == nil ==> fresh(c) && redisOK(c)
 //@ func (c *MemoryCache) Collectors() (cs []prometheus.Collector)
 //@   trusted
 //@   modifies nothing
